@@ -275,7 +275,7 @@ CLAIM = {
     "text": "Decides the writers' token grammar: for the document sequence start other* stop JSONWriter emits `[ REC (, REC)* ]` with one {name, doc} "
             "record per document, only the start branch truncates and all branches use one path; JSONLinesWriter writes one record plus newline "
             "per document and appends when the file exists. Serialisability of arbitrary documents is not decided.",
-    "technique": "token-sequence grammar check per branch; evaluation of the open-mode expression under exists / missing; file-API precondition rule (seek from the end needs a size guard)",
+    "technique": "token-sequence grammar check per document kind (the writer specialised for start / stop / other by folding its tests); evaluation of the open-mode expression under exists / missing; file-API precondition rule (seek from the end needs a size guard)",
 }
 
 J = "callbacks/json_writer.py"
